@@ -68,7 +68,7 @@ def cases(tier):
         p3 = [(i, j) for i in range(len(sh3)) for j in range(i, len(sh3))]
         for k in range(0, len(p3), B):
             out.append(('shapes3', 3, tuple(p3[k:k + B])))
-    for sc in ('quote', 'propagate', 'through-memory', 'registry', 'objects', 'objects2', 'object-reuse', 'wiring', 'optional', 'distance',
+    for sc in ('quote', 'propagate', 'through-memory', 'registry', 'objects', 'objects2', 'objects3', 'object-reuse', 'wiring', 'optional', 'distance',
                'floats'):
         out.append((sc, 0, ()))
     return out
@@ -258,7 +258,7 @@ def make_harness(case, tier):
             k1, k2 = c1.tasks['multi'].name_for_persistence, c2.tasks['multi'].name_for_persistence
             ctx.check(z3.Implies(z3.Not(same), keys_differ(k1, k2)), 'distinct-values=>distinct-keys',
                       {'scenario': 'registry', 'v1': describe(v1), 'v2': describe(v2)})
-        elif kind in ('objects', 'objects2'):
+        elif kind in ('objects', 'objects2', 'objects3'):
             from ref import pobjects as PO
             pr = dict(exclude='\\\n\r\t\x00\x7f\'"')   # Python's own repr() quoting/escaping is not under test
             spec = [P('Obj', params=[par('o')]), P('Use', inputs=[inp('Obj')])]
@@ -270,12 +270,32 @@ def make_harness(case, tier):
                 desc = {'scenario': 'custom', 'v1': [a1, b1], 'v2': [a2, b2]}
             else:
                 pq = dict(exclude='\\\n\r\t\x00\x7f"')       # apostrophes allowed: repr() then switches to double quotes
-                s1, s2, t1, t2, r1, r2 = I('s1'), I('s2'), S('t1', **pq), S('t2', **pq), I('r1'), I('r2')
-                o1 = PO.Sized(s1, tags=[t1, 7], rate=r1)
-                o2 = PO.Sized(s2, tags=[t2, 7], rate=r2)
-                same = z3.And(py_eq(s1, s2), py_eq(t1, t2), py_eq(r1, r2))
+                if kind == 'objects2':
+                    s1, s2, t1, t2, r1, r2 = I('s1'), I('s2'), S('t1', **pq), S('t2', **pq), I('r1'), I('r2')
+                    o1 = PO.Sized(s1, tags=[t1, 7], rate=r1)
+                    o2 = PO.Sized(s2, tags=[t2, 7], rate=r2)
+                    same = z3.And(py_eq(s1, s2), py_eq(t1, t2), py_eq(r1, r2))
+                    desc = {'scenario': 'sized', 'v1': [s1, t1, r1], 'v2': [s2, t2, r2]}
+                else:
+                    # two string arguments side by side; no letter x: the library refuses any argument text that
+                    # contains 'object at 0x', which would only add aborted paths here
+                    pq = dict(exclude='\\\n\r\t\x00\x7f"x')
+                    pr = dict(exclude='\\\n\r\t\x00\x7f\'"x')
+
+                    def Sq(name):
+                        # which quoting style repr() picks is a choice, so that each string's character class is exact
+                        if ctx.flag(name + '_has_apostrophe'):
+                            v = S(name, **pq)
+                            if isinstance(v, Sym):
+                                ctx.assume(z3.Contains(v.t, z3.StringVal("'")))
+                            return v
+                        return S(name, **pr)
+                    t1, u1, t2, u2 = Sq('t1'), Sq('u1'), Sq('t2'), Sq('u2')
+                    o1 = PO.Sized(3, tags=[t1, u1], rate=2)
+                    o2 = PO.Sized(3, tags=[t2, u2], rate=2)
+                    same = z3.And(py_eq(t1, t2), py_eq(u1, u2))
+                    desc = {'scenario': 'sized-two-strings', 'v1': [t1, u1], 'v2': [t2, u2]}
                 q = z3.BoolVal(False)
-                desc = {'scenario': 'sized', 'v1': [s1, t1, r1], 'v2': [s2, t2, r2]}
             try:
                 c1, c2 = two_chains(fs, spec, {'o': o1}, {'o': o2})
             except AssertionError:
